@@ -362,9 +362,6 @@ func (vfs *OrefaFS) Link(oldname, newname string) error {
 	oChild.mu.Lock()
 	defer oChild.mu.Unlock()
 
-	nParent.mu.Lock()
-	defer nParent.mu.Unlock()
-
 	if oChild.mode.IsDir() {
 		err := error(avfs.ErrOpNotPermitted)
 		if vfs.OSType() == avfs.OsWindows {
@@ -373,6 +370,9 @@ func (vfs *OrefaFS) Link(oldname, newname string) error {
 
 		return &os.LinkError{Op: op, Old: oldname, New: newname, Err: err}
 	}
+
+	nParent.mu.Lock()
+	defer nParent.mu.Unlock()
 
 	if nChildOk {
 		err := vfs.err.FileExists
